@@ -252,13 +252,13 @@ func (s *Service) Bind(ctx context.Context, address string) error {
 
 // Listen starts a Service.
 func (s *Service) Listen(ctx context.Context, address string, timeout time.Duration) error {
-	var wg sync.WaitGroup
-	defer func() { s.teardown(); wg.Wait() }()
-
 	err := s.Bind(ctx, address)
 	if err != nil {
 		return err
 	}
+
+	var wg sync.WaitGroup
+	defer func() { s.teardown(); wg.Wait() }()
 
 	s.mutex.Lock()
 	s.running = true
